@@ -94,11 +94,17 @@ void harness_matches (void)
   __CPROVER_assert (IMP (addressed != NULL, addressed->staged <= 1), "post.C05.single-send: the addressed recipient is staged at most once");
   __CPROVER_assert (IMP (addressed != NULL && addressed->staged == 1, G.policy_checks >= 1 && IMP (M.has_fds, addressed->can_unix_fd)), "post.C15.addressed-fd: fds only to an addressed recipient that negotiated them");
   __CPROVER_assert (IMP (addressed != NULL && ret, addressed->staged == 1), "post.C05.delivered: success means the addressed recipient got its copy");
-  __CPROVER_assert (IMP (addressed != NULL && M.has_fds && !addressed->can_unix_fd && G.policy_allowed, !ret && ts_errkind (err.name) == TS_ERR_NOT_SUPPORTED && addressed->staged == 0 && G.recipient_queries == 0),
+  _Bool fd_refused = addressed != NULL && M.has_fds && !addressed->can_unix_fd;
+  __CPROVER_assert (IMP (fd_refused && (G.policy_checks == 0 || G.policy_allowed), !ret && ts_errkind (err.name) == TS_ERR_NOT_SUPPORTED && addressed->staged == 0 && G.recipient_queries == 0),
                     "post.C15.not-supported: refusing fds is a NotSupported error for the sender and ends the routing");
-  __CPROVER_assert (IMP (addressed != NULL, G.policy_checks == 1 && G.policy_sender == sender && G.policy_addressed == addressed && G.policy_proposed == addressed) && IMP (addressed == NULL, G.policy_checks == 0),
-                    "post.C06.gate-addressed: the gate is asked once for (sender, addressed, addressed)");
-  __CPROVER_assert (IMP (addressed != NULL && !G.policy_allowed, !ret && addressed->staged == 0 && G.recipient_queries == 0 && ts_errkind (err.name) == G.policy_err),
+  /* C09 / C05: the policy gate, when it allows a method call, registers the pending reply (C06.gate, C09.expect_reply).  A call that is then
+   * refused gets its ONE error reply from bus_dispatch; had the gate been passed first, the open slot would later produce a second error
+   * (NoReply) for the same call.  So a call that cannot be delivered for lack of fd passing must be refused BEFORE the gate is asked. */
+  __CPROVER_assert (IMP (fd_refused && !ret && ts_errkind (err.name) == TS_ERR_NOT_SUPPORTED, G.policy_checks == 0),
+                    "post.C09.no-slot-for-refused-fd-call: a call refused with NotSupported has not passed the policy gate (no pending-reply slot is left behind for it)");
+  __CPROVER_assert (IMP (addressed != NULL && !fd_refused, G.policy_checks == 1 && G.policy_sender == sender && G.policy_addressed == addressed && G.policy_proposed == addressed) && IMP (addressed == NULL, G.policy_checks == 0) && G.policy_checks <= 1,
+                    "post.C06.gate-addressed: the gate is asked once for (sender, addressed, addressed) before anything is staged for the addressed recipient");
+  __CPROVER_assert (IMP (addressed != NULL && G.policy_checks == 1 && !G.policy_allowed, !ret && addressed->staged == 0 && G.recipient_queries == 0 && ts_errkind (err.name) == G.policy_err),
                     "post.C05.nothing-after-denial: a denial ends the routing with the gate's error, nothing staged, match rules not even consulted");
   __CPROVER_assert (ts_conns[2].staged <= 1 && ts_conns[3].staged <= 1 && ts_conns[0].staged <= 1, "post.C07.once-each: every match recipient at most one copy");
   __CPROVER_assert (IMP (ts_n_recipients < 3, ts_conns[0].staged == 0) && IMP (ts_n_recipients < 2, ts_recipient[1]->staged == 0) && IMP (ts_n_recipients < 1, ts_recipient[0]->staged == 0),
